@@ -289,6 +289,7 @@ class SimHook : public Oomd::Engine::PrekillHook {
   std::unique_ptr<Oomd::Engine::PrekillHookInvocation> fire(
       const Oomd::CgroupContext& cg,
       const Oomd::ActionContext& ac) override {
+
     const Json::Value& h = R.plan["hooks"][id_];
     int64_t dur = 0;
     if (h.isArray() && h.size()) {
@@ -327,6 +328,9 @@ class SimHook : public Oomd::Engine::PrekillHook {
     record(std::move(e));
     probe("hook-fire");
     fires_++;
+    // a hook whose fire() itself takes time (recorded at entry: that is when
+    // the caller had checked the window)
+    simCost(id_);
     return std::make_unique<SimInvocation>(
         id_, n, dur < 0 ? -1 : R.now_ns + dur);
   }
@@ -469,6 +473,7 @@ class SimProbe : public Oomd::Engine::BasePlugin {
     argParser_.addArgument("temporal_from", temporalFrom_);
     argParser_.addArgument("temporal_skip", temporalSkip_);
     argParser_.addArgument("requery", requery_);
+    argParser_.addArgument("rates_only", ratesOnly_);
     if (!argParser_.parse(args))
       return 1;
     return 0;
@@ -611,6 +616,9 @@ class SimProbe : public Oomd::Engine::BasePlugin {
              f == "pg_scan_rate" || f == "memory_growth" ||
              f == "io_cost_cumulative" || f == "pg_scan_cumulative"))
           continue;
+        if (ratesOnly_ &&
+            (f == "io_cost_cumulative" || f == "pg_scan_cumulative"))
+          continue;
         Json::Value a = one(c, f);
         vals[f] = a;
         if (light_)
@@ -699,6 +707,7 @@ class SimProbe : public Oomd::Engine::BasePlugin {
   bool light_ = false;
   int temporalFrom_ = 0;
   bool requery_ = false;
+  bool ratesOnly_ = false;
   std::string temporalSkip_; // "2,5": ticks on which temporal values are
                              // not asked for (a gap in the history)
   bool skipsTick(int t) const {
